@@ -39,6 +39,7 @@ def get_interp(repo_root, track=True, n_devices=1):
     w.app_counter = 0
     w.n_devices = n_devices
     w.allclose_mode = None
+    w.allclose_false_for = None
     w.mark_stop_gradient = False
     w.track = track
     A.set_cut(None)
